@@ -70,8 +70,16 @@ pub fn replicate_into(scene: &mut DynamicScene, world: &World) {
             entities.entry(entity.id()).or_default();
         }
 
+        // Rules may overlap. Like for replication, take each component
+        // only once, from the rule with the highest priority.
+        let mut exported = Vec::new();
         for rule in rules.iter().filter(|rule| rule.matches(archetype)) {
             for component in &rule.components {
+                if exported.contains(&component.id) {
+                    continue;
+                }
+                exported.push(component.id);
+
                 // SAFETY: replication rules can be registered only with valid component IDs.
                 let replicated_component =
                     unsafe { world.components().get_info_unchecked(component.id) };
